@@ -69,7 +69,7 @@ func satTraceMode(rng *rand.Rand, n, maxCalls int, long bool) (rec, error) {
 	}
 	{ // the three events NewWriter queued on track 0 (all delta 0)
 		mw, mtp, ds := snap()
-		for k := 1; k <= 3; k++ {
+		for k := 1; k <= 3 && k <= len(ds[0]); k++ { // (as many as the writer queued: fewer than three is its business)
 			d2 := make([][]int, n)
 			for t := range d2 {
 				d2[t] = []int{}
